@@ -42,7 +42,13 @@ LEVEL_TEXT = ("Theorems (Coq): over the abstract order (no arithmetic law, valid
               "definitions: |D - int_0^x exp(t^2-x^2)| <= 2e-7, |Erfi - erfi| <= 1e-6 |erfi|, erf(y-1e-4) < p < erf(y+1e-4): S3; and tested against an "
               "independent 50-digit reference, S4), conjugation symmetry of boost's Y_lm and that boost's Y_lm satisfies the recurrences (tested, S4; Spherical_Harmonics is a pass-through to boost: "
               "histories of requests in one process, orders beyond the degree included, are tested against an independent recurrence for Y_lm, S4 only, no model; the same for histories of Vector_Spherical_Harmonics_Y / _Psi requests with NaN / infinite / huge angles "
-              "in between: each answer at a proper direction is judged against rhat Y_lm, tangentiality and the classical gradient coefficients times an independent Y_lm, S4 only), "
+              "in between: each answer at a proper direction is judged against rhat Y_lm, tangentiality and the classical gradient coefficients times an independent Y_lm, S4 only; such histories also contain requests of degrees far beyond 12 "
+              "(every order of a degree of a few thousand scanned, plus random ones), which boost abandons by throwing std::overflow_error from |m| = 1606 on: the harness catches, goes on in the same process and the next answers are judged, S4). "
+              "Calls abandoned by an exception from the back end ARE modelled (back end = function into option, None = throws; the sums are locals, nothing survives the call): a call whose neighbour evaluations all answer returns exactly what the "
+              "exception-free model returns, for any number type, table, degree and order (C17_vsh_call_refines_when_back_end_answers), a call in which a needed neighbour throws is abandoned as a whole (C17_vsh_call_abandoned_when_back_end_throws), and in a history of "
+              "Y / Psi / scalar requests with answered and abandoned ones mixed every outcome is that of the request alone (C17_vsh_history_independent_with_throws; the history model is run against the library on generated histories that cross the "
+              "throwing threshold, with the back end's answers and throws as its argument, outcome by outcome). Not a theorem: WHERE boost throws (found by scanning), "
+
               "floating-point behaviour of Round (tested in every decade and every binade of the 600 decades, d = 1..7), and everything under a directed rounding mode set by the caller "
               "(fesetround upward / downward / toward zero: the model's float instance rounds to nearest, so those runs are judged by the predicates only, with every rounding bound doubled and the "
               "exact symmetries x -> -x relaxed to that bound, which is what the unchanged library satisfies).")
@@ -407,6 +413,40 @@ def vsh_histories(rng, big):
                 l, m = lm(); k = rng.choice([0, 0, 1, 2]); d = rng.randrange(nd)
             reqs.append((rng.choice([k, 0, 1, 2]) if rng.random() < 0.3 else k, l, m, d))
         case(dirs, reqs, "random")
+    # 3. requests far beyond the judged degrees (l up to thousands) in between: legal requests of the same process which the scalar-harmonic back
+    #    end may abandon by throwing (it reports an overflow that way at very high orders; where that starts is the back end's business, so the
+    #    orders are SCANNED: every order -L..L of a high degree L, so that a call is broken off at each of its neighbour evaluations in turn),
+    #    the caller catches and goes on; each such request is followed at once by a judged request of the same kind (and sometimes another)
+    def probe():
+        l = rng.choice([0, 1, 1, 2, 2, 3, 4, 12]) if rng.random() < 0.85 else rng.randint(0, 12)
+        r = rng.random()
+        m = rng.choice([-l, l]) if r < 0.4 else rng.choice([-1, 1]) * max(l - 1, 0) if r < 0.6 else rng.randint(-l, l)
+        return l, m
+    L = rng.choice([1700, 1800, 2000, 2400]) if not big else rng.choice([1700, 2500, 3000, 4000])
+    chunk = 150
+    for kind in (0, 1, 2):
+        orders = list(range(-L - 1, L + 2))
+        for c0 in range(0, len(orders), chunk):
+            # two directions per chunk: a generic one (away from the poles, where harmonics of high order do not vanish) and a drawn one (poles, axes,
+            # equator, subnormal angles included); every order is requested at both
+            dirs = [(math.acos(rng.uniform(-0.9, 0.9)), rng.uniform(-3.1, 3.1)), good()]; reqs = []
+            for m in orders[c0:c0 + chunk]:
+                for d in (0, 1):
+                    reqs.append((kind, L, m, d))
+                    l, mm = probe(); reqs.append((kind, l, mm, rng.choice([d, d, 1 - d])))
+                    if rng.random() < 0.15: l, mm = probe(); reqs.append((rng.choice([0, 1, 2]), l, mm, rng.randrange(2)))
+            case(dirs, reqs, "high-degree-scan")
+    # random high degrees and orders (log-uniform degree 13 .. 6000, orders at the ends, in the middle, beyond the degree), mixed kinds and directions
+    for _ in range(400 if big else 40):
+        nd = rng.randint(1, 3); dirs = [good() for _ in range(nd)]; reqs = []
+        for _ in range(rng.randint(3, 10)):
+            Lh = int(round(13 * (6000 / 13) ** rng.random())); r = rng.random()
+            mh = rng.choice([-1, 1]) * (Lh - rng.randint(0, 3)) if r < 0.4 else rng.randint(-Lh, Lh) if r < 0.8 else rng.choice([-1, 1]) * (Lh + rng.randint(1, 3))
+            k = rng.choice([0, 1, 2]); d = rng.randrange(nd)
+            reqs.append((k, Lh, mh, d))
+            for _ in range(rng.randint(1, 2)):
+                l, mm = probe(); reqs.append((k if rng.random() < 0.7 else rng.choice([0, 1, 2]), l, mm, rng.randrange(nd)))
+        case(dirs, reqs, "high-degree-random")
     return cs
 
 
@@ -828,12 +868,29 @@ def vshhist_predicates(t, io):
     a = parse_vals(io); pos = 0; first = {}
     for j, (kind, l, m, d) in enumerate(reqs):
         nz = 1 if kind == 2 else 3
-        if pos + 2 * nz > len(a): out.append(("vshhist:shape", f"{len(a)} numbers returned for {k} requests")); return out
-        z = [complex(a[pos + 2 * i], a[pos + 2 * i + 1]) for i in range(nz)]; pos += 2 * nz
         th, ph = dirs[d]
-        if not dir_judged(th, ph): continue
         name = ("Vector_Spherical_Harmonics_Y", "Vector_Spherical_Harmonics_Psi", "Spherical_Harmonics")[kind]
         where = f"request {j + 1} of {k} in this process: {name}(l={l}, m={m}, theta={th!r}, phi={ph!r})"
+        if pos < len(a) and a[pos] == "THROW":
+            # the request was abandoned by an exception from the back end (caught by the caller): legal beyond the judged degrees, a violation within them
+            pos += 1
+            if l <= 12 and dir_judged(th, ph): out.append(("vshhist:throws", f"an exception came out of {where}")); return out
+            key = (kind, l, m, th, ph)
+            if key in first and first[key][1] != "THROW":
+                out.append(("vshhist:repeatable", f"an exception at {where}, but request {first[key][0] + 1} with the same arguments was answered {first[key][1]!r}")); return out
+            first.setdefault(key, (j, "THROW"))
+            continue
+        if pos + 2 * nz > len(a) or any(not isinstance(w, float) for w in a[pos:pos + 2 * nz]):
+            out.append(("vshhist:shape", f"{len(a)} tokens returned for {k} requests")); return out
+        z = [complex(a[pos + 2 * i], a[pos + 2 * i + 1]) for i in range(nz)]; pos += 2 * nz
+        if not dir_judged(th, ph): continue
+        if l > 12:
+            # beyond the degrees of the property: only the repeat of an identical request in the same process is compared
+            key = (kind, l, m, th, ph)
+            if key in first and first[key][1] != z and not any(w != w for w in z):
+                out.append(("vshhist:repeatable", f"{z!r} at {where}, but request {first[key][0] + 1} with the same arguments was answered {first[key][1]!r}")); return out
+            first.setdefault(key, (j, z))
+            continue
         sc = math.sqrt((2 * l + 1) / (4 * math.pi))
         n = (math.sin(th) * math.cos(ph), math.sin(th) * math.sin(ph), math.cos(th))
         if kind == 2:
@@ -1119,9 +1176,63 @@ def vsh_sum_correspondence(ctx, rng):
     return res, broken
 
 
+def vsh_throw_correspondence(ctx, rng):
+    """histories of vector- and scalar-harmonic requests in which the back end abandons some evaluations by throwing (very high orders), against the
+    history model vsh_run_x, which receives the back end's answers and throws as its function argument: every outcome (numbers or THROW) must agree"""
+    work = ctx["work"]; lines = []
+    def probe():
+        l = rng.randint(0, 12); r = rng.random()
+        return l, (rng.choice([-l, l]) if r < 0.3 else rng.choice([-1, 1]) * max(l - 1, 0) if r < 0.5 else rng.randint(-l, l))
+    for _ in range(60):
+        nd = rng.randint(1, 2); dirs = [(math.acos(rng.uniform(-0.95, 0.95)), rng.uniform(-3.1, 3.1)) if rng.random() < 0.7 else rng.choice(directions(rng, 4))[:2] for _ in range(nd)]
+        reqs = []
+        L = int(round(13 * (4000 / 13) ** rng.random())); m0 = rng.randint(-L - 2, L + 2)
+        for j in range(rng.randint(4, 12)):
+            r = rng.random()
+            if r < 0.35: l, m = probe()
+            elif r < 0.7: l, m = L, m0 + j * rng.choice([1, 1, -1])      # a walk through neighbouring orders of one high degree
+            else: l = int(round(13 * (4000 / 13) ** rng.random())); m = rng.choice([-1, 1]) * (l - rng.randint(-1, 4)) if rng.random() < 0.6 else rng.randint(-l, l)
+            reqs.append((rng.choice([0, 1, 1, 2]), l, m, rng.randrange(nd)))
+        lines.append(f"vshx {nd} " + " ".join(f"{hx(t)} {hx(p)}" for t, p in dirs) + f" {len(reqs)} " + " ".join(f"{k} {l} {m} {d}" for k, l, m, d in reqs))
+    # the orders at which the back end starts to throw are found by the scan of vsh_histories; here a dense walk across every order of one degree
+    L = rng.choice([1650, 1700, 1800]); g = (math.acos(rng.uniform(-0.9, 0.9)), rng.uniform(-3.1, 3.1))
+    orders = list(range(-L - 1, L + 2))
+    for c0 in range(0, len(orders), 200):
+        reqs = []
+        for m in orders[c0:c0 + 200]:
+            reqs.append((rng.choice([0, 1, 1, 2]), L, m, 0))
+            if rng.random() < 0.5: l, mm = probe(); reqs.append((rng.choice([0, 1, 2]), l, mm, 0))
+        lines.append(f"vshx 1 {hx(g[0])} {hx(g[1])} {len(reqs)} " + " ".join(f"{k} {l} {m} {d}" for k, l, m, d in reqs))
+    io = [vcheck.canon_impl(x) for x in vcheck.run_exe(ctx["exe"], lines, work, "vshx_impl")]
+    ml = []; exp = []; nthrow = 0
+    for ln, o in zip(lines, io):
+        t = ln.split(); nd = int(t[1]); q = 2 + 2 * nd; k = int(t[q]); reqs = [t[q + 1 + 4 * j: q + 5 + 4 * j] for j in range(k)]
+        parts = [p.strip() for p in o.split(";")][:-1] if o.endswith(";") else []
+        if len(parts) != k or any("=" not in p for p in parts):
+            ml.append("vshrun 0"); exp.append(o); continue
+        m_ = [f"vshrun {k}"]; e = []
+        for (kind, l, m, d), p in zip(reqs, parts):
+            nb, ans = [x.strip() for x in p.split("=")]
+            own = "T" if ans == "THROW" else ans if int(kind) >= 2 else "S"
+            m_.append(f"{kind} {l} {m} {nb} {own}"); e.append(ans + " ;"); nthrow += ans == "THROW"
+        ml.append(" ".join(m_)); exp.append(" ".join(e))
+    mo = [x.strip() for x in vcheck.run_exe(ctx["driver"], ml, work, "vshx_model")]
+    nbit = nok = 0; bad = []
+    for ln, e, m_ in zip(lines, exp, mo):
+        ok, bit, detail = compare_lines(e, m_, (1e-13, 1e-15))
+        nbit += bit; nok += ok
+        if not ok: bad.append({"case": ln[:400], "impl": e[:400], "model": m_[:400], "detail": detail})
+    res = {"vsh_throw_histories": len(lines), "vsh_throw_histories_bit_identical": nbit, "vsh_throw_histories_within_tol": nok, "vsh_throw_histories_abandoned_requests": nthrow}
+    broken = []
+    if bad: broken.append({"kind": "correspondence", "what": f"histories of harmonic requests with abandoned (throwing) evaluations disagree with the history model vsh_run_x on {len(bad)} of {len(lines)} histories", "first": bad[:3]})
+    if nthrow == 0: broken.append({"kind": "coverage", "what": "no request of the throwing-back-end histories was abandoned: the region where the back end throws is not reached"})
+    return res, broken
+
+
 def extra(ctx, rng):
     out = {}; viol = []; broken = []
     r, b = vsh_sum_correspondence(ctx, rng); out.update(r); broken += b
+    r, b = vsh_throw_correspondence(ctx, rng); out.update(r); broken += b
     t0 = time.time()
     r, v, b = certified_samples(ctx, rng); out.update(r); viol += v; broken += b
     out["s3_wall_s"] = round(time.time() - t0, 1)
